@@ -68,6 +68,11 @@ func genC14(t *rapid.T) c14Case {
 			c.Optional = c.Optional || cl.Optional
 		}
 	}
+	if !c.Optional {
+		if cs, ch := g.AliasBounds(q.Clauses, 30, false); ch {
+			q.Clauses = cs
+		}
+	}
 	if cs, renamed := avoidObjIDReuse(q.Clauses); renamed {
 		q.Clauses = cs
 		c.Excluded = append(c.Excluded, "KF-C03-OBJ-ID-UNCHECKED")
